@@ -138,7 +138,7 @@ theorem forever_pm (cx : Cx) (fuel : Nat) (env : Src.Env) (he : EnvOK cx env) (l
       rw [e]
       refine R2.silL (lab_jump hitJ jump_isJump) ?_
       rw [htgt1]; exact hPh
-    exact loop_body_run cx hPe sL eB _ hpBlk (tbl b).length _ hagB m j hex' hinB hafter
+    exact loop_body_run cx hPe sL eB _ hpBlk (tbl b).length _ hagB m j hex' hinB (fun _ => hafter)
   -- the induction over the loop
   have hhead : ∀ m j, ExitsOK cx m j s env ∧ R2 cx m j ⟨r, i0 + (ops.length + 5)⟩ k → R2 cx m j ⟨r, i0⟩ (tbl b).length := by
     refine loop_ind (fun m j => ExitsOK cx m j s env ∧ R2 cx m j ⟨r, i0 + (ops.length + 5)⟩ k)
